@@ -8,6 +8,20 @@ def main(path):
     from harness import check, tracecheck, run
     from harness.world import warm
     d = json.load(open(path))
+    if "observation" in d:
+        # function-level observation: run the real code on the recorded input again, validate with TLC
+        from harness import funcs
+        run.setup_registry()
+        if d.get("task"):
+            o = getattr(funcs, d["task"][0])(*d["task"][1])
+        else:
+            o = d["observation"]
+        v, _ = funcs.validate(d["module"], d["cfg"], [o], shards=1)
+        print("property", d["property"], "clause", d["clause"])
+        print("observation:", json.dumps(o)[:1500])
+        print("violated clauses on replay:", v[0])
+        print("REPRODUCED" if d["clause"] in v[0] else "NOT REPRODUCED (the tree may have changed since the file was written)")
+        return 0 if d["clause"] in v[0] else 1
     drv = d.get("driver")
     run.setup_registry()
     warm()
